@@ -22,8 +22,8 @@ PROP = "C04"
 LEVEL = "exploration"
 RULE = (
     "strings: every sequence of <=3 atoms (quick and thorough; thorough adds an index-sampled slice of length 4) over "
-    "a 58-atom alphabet with one representative per lexer class, placed at 11 (position,key) sites "
-    "(assignment/META/nested META/list of 1,2,3 items/inline-map value x keys K,PATTERN,REGEX); plus Hypothesis "
+    "a 61-atom alphabet with one representative per lexer class, placed at 12 (position,key) sites "
+    "(assignment with and without YAML frontmatter/META/nested META/list of 1,2,3 items/inline-map value x keys K,PATTERN,REGEX); plus Hypothesis "
     "text<=60, near-bare strings (1-2 edits away from annotation/expression/variable/version shapes), ints, finite floats, bools, None; plus octave_write(changes/mutations) then read of the file. "
     "Oracle: parse(emit(doc)) returns the same value with the same type (str after NFC) and the sentinel neighbour "
     "is intact. Non-trivial = the string is not a plain identifier (contains a non-alphanumeric or reserved atom) "
@@ -40,9 +40,10 @@ ATOMS = [
     "$", "#", "§", "→", "⊕", "⧺", "⇌", "∧", "∨", "@", "+", "~", "|", "&", "%", "=", "`", ";", "(", ")", "\x00",
     "́", "é", "😀", "n", "t", "e",
     "true", "false", "null", "vs", "//", "::", "->", "<->", "===",
+    "\x0c", "\x85", "\u2028",
 ]
 SITES = [
-    ("assign", "K"), ("assign", "PATTERN"), ("assign", "REGEX"), ("meta", "K"), ("metanested", "K"),
+    ("fm_assign", "K"), ("assign", "K"), ("assign", "PATTERN"), ("assign", "REGEX"), ("meta", "K"), ("metanested", "K"),
     ("list1", ""), ("list2", ""), ("list3", ""), ("pair", "K"), ("pair", "PATTERN"), ("pair", "REGEX"),
 ]
 SENT = "zzsentinel"
@@ -58,7 +59,10 @@ def _imports():
 def build(site, key, v):
     emit, parse, Assignment, Document, InlineMap, ListValue = _imports()
     doc = Document(name="D")
-    if site == "assign":
+    if site == "fm_assign":  # the same document carrying YAML frontmatter
+        doc.raw_frontmatter = "name: x\ndescription: y (z)"
+        doc.sections = [Assignment(key=key, value=v), Assignment(key="Z", value=SENT)]
+    elif site == "assign":
         doc.sections = [Assignment(key=key, value=v), Assignment(key="Z", value=SENT)]
     elif site == "meta":
         doc.meta = {key: v, "Z": SENT}
@@ -99,6 +103,10 @@ def extract(site, key, doc2):
         )
 
     s = doc2.sections
+    if site == "fm_assign":
+        if doc2.raw_frontmatter != "name: x\ndescription: y (z)":
+            raise Mismatch(f"frontmatter read back as {doc2.raw_frontmatter!r}")
+        site = "assign"
     if site == "assign":
         if not (s and isinstance(s[0], Assignment) and s[0].key == key):
             raise Mismatch(f"first node is not assignment {key}: {s[:1]!r}")
